@@ -33,9 +33,13 @@ var initAllowList = map[string]bool{
 	"internal/bytealg": false, "internal/oserror": true, "internal/cpu": true, "internal/byteorder": true, "database/sql": false, "time": false, "context": false,
 }
 
+var initDenyAtlas = map[string]bool{
+	"ariga.io/atlas/schemahcl": true,
+}
+
 func initAllowed(path string) bool {
 	if strings.HasPrefix(path, "ariga.io/atlas") {
-		return true
+		return !initDenyAtlas[path]
 	}
 	return initAllowList[path]
 }
